@@ -32,6 +32,9 @@ pub enum Ev {
 pub struct Case {
     contacts: u8,
     events: Vec<Ev>,
+    /// contacts 3..5 carry the node ids of contacts 0..2 (one id under two addresses)
+    #[serde(default)]
+    alias: bool,
 }
 
 #[derive(Clone, Debug, Default)]
@@ -76,10 +79,10 @@ impl M {
 
 pub struct Histories;
 
-fn contact_handle(local: &Id, c: u8) -> (Id, SocketAddr) {
+fn contact_handle(local: &Id, c: u8, alias: bool) -> (Id, SocketAddr) {
     // every contact in its own bucket region; never more than 6, so no bucket fills
     let mut id = flip_bit(*local, (c % 3) as usize);
-    id[10] = c;
+    id[10] = if alias && c >= 3 { c - 3 } else { c };
     (id, SocketAddr::from(([10, 9, 0, c + 1], 4000 + c as u16)))
 }
 
@@ -116,9 +119,9 @@ impl Stage for Histories {
                     4 => (0..n).prop_map(|c| Ev::QueryTo { c }),
                     5 => dt.clone().prop_map(|ms| Ev::Advance { ms }),
                 ];
-                (Just(n), vec(ev, 1..60))
+                (Just(n), vec(ev, 1..60), prop::bool::weighted(0.3))
             })
-            .prop_map(|(contacts, events)| Case { contacts, events })
+            .prop_map(|(contacts, events, alias)| Case { contacts, events, alias })
             .boxed()
     }
     fn run(&self, c: &Case) -> Outcome {
@@ -141,7 +144,7 @@ impl Stage for Histories {
                         }
                     }
                     Ev::Answer { c: k } => {
-                        let (id, a) = contact_handle(&local, *k);
+                        let (id, a) = contact_handle(&local, *k, c.alias);
                         table.add_node(Node::as_good(InfoHash::from(id), a));
                         let m = &mut model[*k as usize];
                         m.known = true;
@@ -149,7 +152,7 @@ impl Stage for Histories {
                         m.unanswered = 0;
                     }
                     Ev::Mention { c: k } => {
-                        let (id, a) = contact_handle(&local, *k);
+                        let (id, a) = contact_handle(&local, *k, c.alias);
                         table.add_node(Node::as_questionable(InfoHash::from(id), a));
                         let m = &mut model[*k as usize];
                         match m.standing(now) {
@@ -162,7 +165,7 @@ impl Stage for Histories {
                         }
                     }
                     Ev::QueryFrom { c: k } => {
-                        let (id, a) = contact_handle(&local, *k);
+                        let (id, a) = contact_handle(&local, *k, c.alias);
                         if let Some(node) = table.find_node_mut(&NodeHandle::new(InfoHash::from(id), a)) {
                             node.remote_request();
                         }
@@ -174,7 +177,7 @@ impl Stage for Histories {
                         }
                     }
                     Ev::QueryTo { c: k } => {
-                        let (id, a) = contact_handle(&local, *k);
+                        let (id, a) = contact_handle(&local, *k, c.alias);
                         if let Some(node) = table.find_node_mut(&NodeHandle::new(InfoHash::from(id), a)) {
                             node.local_request();
                         }
@@ -197,7 +200,7 @@ impl Stage for Histories {
                 let d = dump(&table);
                 let (good, quest) = table.load_contacts();
                 for k in 0..c.contacts {
-                    let (id, a) = contact_handle(&local, k);
+                    let (id, a) = contact_handle(&local, k, c.alias);
                     let actual = match d.iter().flatten().find(|s| s.id == id && s.addr == a).map(|s| s.st) {
                         Some(St::Good) => Standing::Good,
                         Some(St::Questionable) => Standing::Questionable,
@@ -234,7 +237,7 @@ impl Stage for Histories {
         })
     }
     fn rule(&self) -> String {
-        "histories of 1..60 events for 1..6 interleaved contacts on the real RoutingTable under a paused clock: answer, hearsay mention, query received, query sent, time steps (1 s, 14 m 59 s, 15 m 1 s, 15 m +/- 5 s, 15 m +/- 1 ms, 16 m, 1 h, random < 2 min; very long pauses: 1 day, 30 days, 2^k ms +/- 5 s for k = 20..40 (2^32 ms = 49.7 days), also minus 15 min), applied through the API the handler uses. Oracle: independent per-contact status model (good iff answered within 15 min, or known with < 2 unanswered queries and queried us within 15 min; absent iff not good with >= 2 consecutive unanswered queries; else questionable; a mention re-admits a dropped contact as fresh hearsay; its own queries never do), compared with Node::status() and load_contacts() after every event. Ages of exactly 15 min end the case. Non-trivial: a step >= 15 min and a query sent while not good".into()
+        "histories of 1..60 events for 1..6 interleaved contacts (30 %: contacts 3..5 carry the node ids of contacts 0..2 under other addresses) on the real RoutingTable under a paused clock: answer, hearsay mention, query received, query sent, time steps (1 s, 14 m 59 s, 15 m 1 s, 15 m +/- 5 s, 15 m +/- 1 ms, 16 m, 1 h, random < 2 min; very long pauses: 1 day, 30 days, 2^k ms +/- 5 s for k = 20..40 (2^32 ms = 49.7 days), also minus 15 min), applied through the API the handler uses. Oracle: independent per-contact status model (good iff answered within 15 min, or known with < 2 unanswered queries and queried us within 15 min; absent iff not good with >= 2 consecutive unanswered queries; else questionable; a mention re-admits a dropped contact as fresh hearsay; its own queries never do), compared with Node::status() and load_contacts() after every event. Ages of exactly 15 min end the case. Non-trivial: a step >= 15 min and a query sent while not good".into()
     }
 }
 
